@@ -1,44 +1,47 @@
 (* C04 property theorems.  Statements only, closed by `exact`; Print Assumptions; non-vacuity examples.
 
-   reader_meta is the reader's walk at metadata level (visibility of day directories, Open, TimeRange,
-   block list, directory-name totals vs metadata totals); spec_db [] ws is the abstract database after the
-   write-outs ws (a write-out with an already stored timestamp is rejected and changes nothing).
-   FULL statements (not discharged, see prop.json / NOTES.md): the same with `reader` (which also reads
-   every block's column data back and identifies its write-out) and without the hypothesis
-   `stale_point ... = false` (refuted below: finding C04-stale-suffix-between-renames). *)
+   reader is the model of the real reader (walk over the visible day directories, Open, TimeRange, every block
+   of the committed metadata read back from the column files and identified, directory-name totals vs metadata
+   totals); spec_db [] ws is the abstract database after the write-outs ws (a write-out with an already stored
+   timestamp is rejected and changes nothing); spec_read_f a = (spec_view a, spec_listing a): per day the
+   (timestamp, write-out id) of every committed block with flows, and the totals per interface.
+   wf_w w: the bytes_rcvd column block of a write-out is never empty (bitpack.Pack always emits a byte).
+   FULL statement (not discharged): the same without `stale_point ... = false` - refuted below
+   (finding C04-stale-suffix-between-renames). *)
 From Coq Require Import List ZArith NArith Bool Arith Lia.
 From GoProbe.Base Require Import CorrLib.
-From GoProbe.C04 Require Import Model Proofs Proofs2 Proofs3 Proofs4 Proofs5.
+From GoProbe.C04 Require Import Model Proofs ProofsCols Proofs2 Proofs3 Proofs4 Proofs5.
 Import ListNotations.
 
 (* For ALL histories of write-outs and EVERY prefix of the concatenated operation list (a crash between any
    two file-system calls), except the single point between the metadata rename and the rename of a day
-   directory that already carries a totals suffix: the reader succeeds and sees exactly the write-outs
-   completed before the crash point, or those plus the interrupted one, and the listing totals agree. *)
-Theorem c04_crash_consistent_partial : forall ws k,
+   directory that already carries a totals suffix: the reader succeeds, sees exactly the write-outs completed
+   before the crash point or those plus the interrupted one, EVERY block reads back the payload written for
+   it, and the listing totals agree. *)
+Theorem c04_crash_consistent_partial : forall ws k, Forall wf_w ws ->
   k <= length (hist_ops fs_empty ws) ->
   stale_point (hist_ops fs_empty ws) k = false ->
   exists j, (j = completed fs_empty ws k \/ j = S (completed fs_empty ws k)) /\ j <= length ws /\
-    reader_meta (apply_all fs_empty (firstn k (hist_ops fs_empty ws))) = Ok (spec_read_m (spec_db [] (firstn j ws))).
+    reader (apply_all fs_empty (firstn k (hist_ops fs_empty ws))) = Ok (spec_read_f (spec_db [] (firstn j ws))).
 Proof. exact crash_consistent. Qed.
 Print Assumptions c04_crash_consistent_partial.
 
 (* From any such crashed state, further write-outs ws' are accepted and read back. *)
-Theorem c04_recovers_partial : forall ws k ws',
+Theorem c04_recovers_partial : forall ws k ws', Forall wf_w ws -> Forall wf_w ws' ->
   k <= length (hist_ops fs_empty ws) ->
   stale_point (hist_ops fs_empty ws) k = false ->
   exists j, (j = completed fs_empty ws k \/ j = S (completed fs_empty ws k)) /\ j <= length ws /\
-    reader_meta (hist_state (apply_all fs_empty (firstn k (hist_ops fs_empty ws))) ws')
-    = Ok (spec_read_m (spec_db [] (firstn j ws ++ ws'))).
+    reader (hist_state (apply_all fs_empty (firstn k (hist_ops fs_empty ws))) ws')
+    = Ok (spec_read_f (spec_db [] (firstn j ws ++ ws'))).
 Proof. exact recovers. Qed.
 Print Assumptions c04_recovers_partial.
 
 (* At the excluded crash point the property fails: the reader's answer is not that of ANY number of
    write-outs (the query shows the interrupted write-out, the listing does not count it). *)
-Theorem c04_stale_suffix_refuted : exists ws k,
+Theorem c04_stale_suffix_refuted : exists ws k, Forall wf_w ws /\
   k <= length (hist_ops fs_empty ws) /\
   forall j, j <= length ws ->
-    reader_meta (apply_all fs_empty (firstn k (hist_ops fs_empty ws))) <> Ok (spec_read_m (spec_db [] (firstn j ws))).
+    reader (apply_all fs_empty (firstn k (hist_ops fs_empty ws))) <> Ok (spec_read_f (spec_db [] (firstn j ws))).
 Proof. exact stale_refuted. Qed.
 Print Assumptions c04_stale_suffix_refuted.
 
@@ -54,5 +57,6 @@ Example c04_example :
   let ws := ex_ws in
   60 <= length (hist_ops fs_empty ws) /\ stale_point (hist_ops fs_empty ws) 60 = false /\
   completed fs_empty ws 60 = 1 /\
-  reader_meta (apply_all fs_empty (firstn 60 (hist_ops fs_empty ws))) = Ok (spec_read_m (spec_db [] (firstn 1 ws))).
-Proof. vm_compute. repeat split; try lia; reflexivity. Qed.
+  Forall wf_w ws /\
+  reader (apply_all fs_empty (firstn 60 (hist_ops fs_empty ws))) = Ok (spec_read_f (spec_db [] (firstn 1 ws))).
+Proof. split; [vm_compute; lia|]. split; [reflexivity|]. split; [reflexivity|]. split; [exact ex_wf|]. vm_compute. reflexivity. Qed.
